@@ -89,8 +89,11 @@ func c09Exec(op string) (string, *Violation) {
 		}
 		r := mk(data[c:])
 		var got []osm.Object
+		var rcs, rps []int64
 		for r.Scan() {
 			got = append(got, r.Object())
+			rcs = append(rcs, r.FullyScannedBytes())
+			rps = append(rps, r.PreviousFullyScannedBytes())
 		}
 		rerr := r.Err()
 		r.Close()
@@ -111,6 +114,18 @@ func c09Exec(op string) (string, *Violation) {
 				w = pObject(want[0])
 			}
 			return &Violation{Signature: "pbf-resume-loses-or-repeats", Text: fmt.Sprintf("resuming at the offset %d reported from object %d on yields %d objects starting with %s; the rest of the scan from the first object of that block is %d objects starting with %s", c, first, len(got), g, len(want), w)}
+		}
+		// the resumed scan reports offsets by the same rule, relative to where it started (so that a scan
+		// resumed once can be stopped and resumed again)
+		for i := range got {
+			wc := cs[first+i] - c
+			wp := int64(0)
+			if cs[first+i] != c {
+				wp = ps[first+i] - c
+			}
+			if rcs[i] != wc || rps[i] != wp {
+				return &Violation{Signature: "pbf-resumed-scan-offsets", Text: fmt.Sprintf("a scan resumed at offset %d reports %d/%d at its object %d; the block of that object starts %d bytes after the resume point and the preceding value is %d", c, rcs[i], rps[i], i, wc, wp)}
+			}
 		}
 		return nil
 	}
